@@ -91,6 +91,12 @@ def gen_peer_case(rng, cid, transport, hook):
             steps.append(["await_ret", k, 2000])
         seq = [k for k in seq if k not in cancelled]
         answered = [k for k in answered if k not in cancelled]
+    if transport == "ws" and seq and rng.random() < 0.6:
+        # websocket: a TEXT frame is not a response, whatever its first four bytes say (here: a pending caller's index)
+        for k in rng.sample(seq, min(len(seq), rng.choice([1, 2]))):
+            steps.append(["peer_text", k])
+        steps.append(["sleep", 5])
+        extras["text_frames"] = 1
     for k in seq:
         r = rng.random()
         if r < 0.18:
@@ -209,6 +215,21 @@ def gen_rev_mixed_case(rng):
             "steps": steps, "n": n, "methods": methods, "warmups": w}
 
 
+def gen_rev_abandon_case(rng):
+    """reverse.Caller: several calls are queued for a provider that is not listening yet; some of them - not the last
+    queued - give up (deadline of a few milliseconds) while still queued; then the provider starts.  Every call that
+    did not give up is answered with its own result."""
+    n = rng.choice([3, 4, 6, 8])
+    quitters = sorted(rng.sample(range(n - 1), rng.choice([1, 1, 2]) if n > 3 else 1))
+    steps = []
+    for k in range(n):
+        steps.append(["invoke", k, "pa", 25 if k in quitters else 0, 0, "echo"])
+    steps += [["sleep", 120], ["listen", "pa"]]
+    steps += [["await_ret", k, 3000] for k in range(n)]
+    return {"fam": "rev-mixed", "kind": "reverse", "rev": {"providers": ["pw", "pa"], "mode": "real", "late": ["pa"], "caller_timeout_ms": 1500},
+            "steps": steps, "n": n, "methods": ["echo"] * n, "warmups": 0, "unanswered": quitters, "abandon": True}
+
+
 def gen_first_select_case(cid, transport):
     """hook: Send is held with caller 0's request in hand, so callers 1 and 2 sit in their FIRST select with nobody to take
     their requests; caller 1 is cancelled there (case <-ctx.Done(): c.delete(index) of the first select); then Send goes on
@@ -314,6 +335,8 @@ def gen_cases(ctx, hook):
         add(gen_rev_case(rng, 0, "real"))
     for _ in range(4 if quick else 20):
         add(gen_rev_mixed_case(rng))
+    for _ in range(4 if quick else 20):
+        add(gen_rev_abandon_case(rng))
     if hook:
         for t in ("tcp", "ws", "udp"):
             add(gen_first_select_case(0, t))
@@ -587,6 +610,8 @@ def oracle(case, obs):
     if case["fam"] == "rev-mixed":
         for k, meth in enumerate(case["methods"]):
             want = "own" if meth == "echo" else "ownerr:" + meth
+            if k in case.get("unanswered", []):
+                continue          # gave up while still queued (deadline of a few ms on purpose)
             if res.get(str(k)) != want and not hv_is_env(res.get(str(k), "")):
                 return ("c09:rev:wrong-outcome", "reverse: caller %d invoked %s and got %r (expected %s: the outcome of its own call)"
                         % (k, meth, res.get(str(k)), want))
